@@ -23,6 +23,6 @@ def run_kani_only(run, names, bounds, outside, assumes, features=(), timeout=Non
             obs = {'dev': nd.request(c['request']), 'release': nr.request(c['request'])}
             return any(o.get('kind') != 'ok' or o.get('library') != o.get('serde_json') for o in obs.values()), obs
         # the counterexample is replayed by Kani's own concrete playback (generated unit test run natively against the crate)
-        ok_, out = K.playback_native(c['request']['harness'], features=tuple(c['request']['features']))
+        ok_, out = K.playback_native(c['request']['harness'], features=tuple(c['request']['features']), values=c['request'].get('values'))
         return ok_, {'playback': out[-600:]}
     run.confirm_all(confirm)
